@@ -84,6 +84,13 @@ type SimRand struct {
 	FreshBy []int
 }
 
+// SetIdleMapMode selects the map order used by rewritten range statements
+// while no simulation is running (engines that call goa code directly).
+func SetIdleMapMode(m MapMode, seed uint64) {
+	envMapMode = m
+	envMapRng = &rng{s: seed}
+}
+
 // SetIdleClock fixes what Now returns while no simulation is running (setup
 // code that constructs clock-reading objects); nil restores the real clock.
 func SetIdleClock(t *time.Time) { envClock = t }
